@@ -4,6 +4,7 @@ import (
 	"fmt"
 	"go/types"
 	"strings"
+	"time"
 
 	"golang.org/x/tools/go/ssa"
 )
@@ -129,6 +130,7 @@ type State struct {
 	ghost   map[string]Value
 	ghosts  []ghostTok // scalar-encoder stub tokens (index+1 is printed as the placeholder)
 	done    *Outcome
+	started time.Time
 }
 
 // ghostTok records what a scalar text-encoder stub was asked to encode.
@@ -253,6 +255,7 @@ func (st *State) clone() *State {
 		}
 	}
 	n.depth = st.depth + 1
+	n.started = time.Time{}
 	return &n
 }
 
